@@ -42,6 +42,8 @@ func (c *compiler) compile() (string, error) {
 		var res interface{}
 		var err error
 
+		c.curStmt = stmt
+
 		switch node := stmt.(type) {
 		case *ast.ReturnStatement:
 			res, err = c.evalReturnStatement(node)
@@ -1001,6 +1003,11 @@ func (c *compiler) evalForExpression(node *ast.ForExpression) (interface{}, erro
 }
 
 func (c *compiler) evalBlockStatement(node *ast.BlockStatement) (interface{}, error) {
+	// When the block completes, errors raised later belong to the statement
+	// that contains the block again, not to the block's last statement. On
+	// error curStmt is left pointing at the failing statement.
+	outer := c.curStmt
+
 	res := []interface{}{}
 	for _, s := range node.Statements {
 		i, err := c.evalStatement(s)
@@ -1028,10 +1035,12 @@ func (c *compiler) evalBlockStatement(node *ast.BlockStatement) (interface{}, er
 				resValue = obj
 			}
 
+			c.curStmt = outer
 			return resValue, nil
 		}
 	}
 
+	c.curStmt = outer
 	return res, nil
 }
 
